@@ -130,7 +130,7 @@ def decide(ctx, prog, name, b, rows, extra=()):
 def run(ctx):
     ctx.explanation = ("one-step tables of every slice iterator with callees inlined to (offset,count) views, compared with std's "
                        "step relation for every order type of (len,size); forward/reverse isomorphism; constructors and accessors")
-    for cfg in (["FULL"] if ctx.tier == "quick" else ["FULL", "MIN"]):
+    for cfg in (["FULL"] if ctx.tier == "quick" else ["FULL", "DEBUG"]):
         prog = ctx.program(cfg)
         elems(ctx, prog)
         windows(ctx, prog)
